@@ -1,14 +1,19 @@
 #!/bin/bash
-# tools/seed_sweep.sh [tier]: run every confirmed seeded change against its property's check; writes seeded/SWEEP.txt
+# tools/seed_sweep.sh [tier] [parallel]: run every confirmed seeded change against its property's check; writes seeded/SWEEP-<tier>.txt
 cd "$(dirname "$0")/.." || exit 1
-tier="${1:-quick}"
+tier="${1:-quick}"; par="${2:-3}"
 out=seeded/SWEEP-$tier.txt
-: > "$out"
-for d in seeded/C[0-9][0-9]-*; do
+one() {
+  d="$1"; tier="$2"
   n=$(basename "$d"); prop=${n%%-*}
   res=$(SEEDTEST_LINES=3 tools/seedtest.sh "$PWD/$d/patch.diff" "$prop" "$tier" 2>&1 | grep -v "^KNOWN")
   v=$(echo "$res" | grep -o "verdict=[A-Z-]*" | head -1)
   mech=$(echo "$res" | grep -o "mechanism=[^ ]*" | head -2 | tr '\n' ' ')
   [ -z "$v" ] && v="$(echo "$res" | head -1 | cut -c1-80)"
-  echo "$n $v $mech" | tee -a "$out"
-done
+  echo "$n $v $mech"
+}
+export -f one
+ls -d seeded/C[0-9][0-9]-* | xargs -P "$par" -I{} bash -c 'one {} '"$tier" | tee "$out.tmp"
+sort "$out.tmp" > "$out"; rm -f "$out.tmp"
+grep -vc "VIOLATED" "$out" | sed 's/^/not VIOLATED: /'
+grep -v "VIOLATED" "$out"
